@@ -506,7 +506,7 @@ func (runInfo *runInfoStruct) runForSliceStmt(stmt *ast.ForStmt, value reflect.V
 		if iv.Kind() == reflect.Interface && !iv.IsNil() {
 			iv = iv.Elem()
 		}
-		if iv.Kind() == reflect.Ptr {
+		if iv.Kind() == reflect.Ptr && !iv.IsNil() {
 			iv = iv.Elem()
 		}
 		runInfo.env.DefineValue(stmt.Vars[0], iv)
@@ -545,7 +545,12 @@ func (runInfo *runInfoStruct) runForMapStmt(stmt *ast.ForStmt, value reflect.Val
 		runInfo.env.DefineValue(stmt.Vars[0], keys[i])
 
 		if len(stmt.Vars) > 1 {
-			runInfo.env.DefineValue(stmt.Vars[1], value.MapIndex(keys[i]))
+			mv := value.MapIndex(keys[i])
+			if !mv.IsValid() {
+				// the entry was deleted by an earlier iteration
+				mv = nilValue
+			}
+			runInfo.env.DefineValue(stmt.Vars[1], mv)
 		}
 
 		runInfo.stmt = stmt.Stmt
@@ -592,7 +597,7 @@ func (runInfo *runInfoStruct) runForChanStmt(stmt *ast.ForStmt, value reflect.Va
 		if runInfo.rv.Kind() == reflect.Interface && !runInfo.rv.IsNil() {
 			runInfo.rv = runInfo.rv.Elem()
 		}
-		if runInfo.rv.Kind() == reflect.Ptr {
+		if runInfo.rv.Kind() == reflect.Ptr && !runInfo.rv.IsNil() {
 			runInfo.rv = runInfo.rv.Elem()
 		}
 
